@@ -40,11 +40,13 @@ def render(mods, d, cse, outdir, kind="ekf", presentation=None, via_entry=False,
         argv = sys.argv
         sys.argv = ["generator.py", "--header", header, "--source", source, "--namespace", NS]
         try:
+            # the configuration as the dict it is, or as the equivalent cpp.Config object
+            cfg_arg = cpp.Config(**cfg) if (len(str(outdir)) % 2 == 0) else cfg
             if kind == "ekf":
                 res = cpp.compile_ekf(model, process_noise=pn, sensor_models=sm, sensor_noises=sn,
-                                      calibration_map=cm, config=cfg)
+                                      calibration_map=cm, config=cfg_arg)
             else:
-                res = cpp.compile(model, calibration_map=cm, config=cfg)
+                res = cpp.compile(model, calibration_map=cm, config=cfg_arg)
         finally:
             sys.argv = argv
         if not res.success:
